@@ -363,6 +363,8 @@ def reference_passed_up(R, obs) -> list[tuple[str, int, int]]:
     out: list[tuple[str, int, int]] = []
     expected = 0
     tcp_buf: dict[Any, bytes] = {}
+    client_cid = None
+    obs["stale_channel_frames_passed_up"] = 0
 
     def classify(cemi: bytes, n: int):
         c = W.parse_cemi_ldata(cemi)
@@ -384,11 +386,18 @@ def reference_passed_up(R, obs) -> list[tuple[str, int, int]]:
                 expected = 0
         elif kind == "udp_in" and f">{client_ip}:" in str(actor):
             sp = W.split(bytes.fromhex(detail))
+            if sp and sp[0] == W.CONNECT_RES and len(sp[1]) >= 2 and sp[1][1] == 0:
+                client_cid = sp[1][0]
             if sp and sp[0] == W.TUNNEL_REQ and len(sp[1]) >= 4:
                 seq = sp[1][2]
                 if seq == expected:
                     expected = (expected + 1) & 0xFF
                     classify(sp[1][4:], n)
+                    if client_cid is not None and sp[1][1] != client_cid:
+                        # a delayed frame of the previous channel whose counter happens to be the expected one: the tunnel
+                        # evaluates the counter only (as C23 states it), so it is passed up - and the frame of the live
+                        # channel carrying that counter is then taken for a repetition
+                        obs["stale_channel_frames_passed_up"] += 1
         elif kind == "tcp_in":
             buf = tcp_buf.get(actor, b"") + bytes.fromhex(detail)
             while len(buf) >= 6:
@@ -435,7 +444,8 @@ def judge_c14(R, obs):
     R.probes["e2e_inds_delivered"] += len(got)
     R.probes["e2e_cons_received"] += sum(1 for (k, _, _) in ref if k == "con")
     # bounded progress: the indication pushed after the faults stopped arrives
-    if obs["final"].get("state") == "CONNECTED" and 9002 not in got:
+    R.probes["e2e_stale_channel_frame_passed_up"] += obs["stale_channel_frames_passed_up"]
+    if obs["final"].get("state") == "CONNECTED" and 9002 not in got and not obs["stale_channel_frames_passed_up"]:
         m = next((x for x in obs["sender"].log if x.get("id") == 9002), None)
         if m is not None and m.get("sent"):
             R.violate("C14.e2e-exactly-once", "received-frame-not-delivered:after-faults-stopped",
